@@ -130,6 +130,25 @@ theorem stale_knowledge_not_ordered (c o : Clock) (t : Nat) (h : t < List.length
 example : Clock.le (Clock.ofList [1, 2]) (Clock.ofList [1, 2, 0]) = true ∧
     Clock.le (Clock.increment (Clock.ofList [1, 2]) 1) (Clock.ofList [1, 2]) = false := by decide
 
+/-- **the deviation is only about representation length**: once both operands are zero-extended to a
+common index (what `extend` does for every clock the runtime hands to a new task), the runtime's `<=` *is*
+the pointwise order of the property text. So `partial_cmp_deviates` can only bite when a clock that was
+not produced by the same execution (a re-typed target clock) is compared. -/
+theorem le_exact_after_extend (a b : Clock) (n : Nat) (ha : List.length a ≤ n + 1) (hb : List.length b ≤ n + 1) :
+    Clock.le (Clock.extend a n) (Clock.extend b n) = true ↔ ∀ i, Clock.get a i ≤ Clock.get b i := by
+  have hl : List.length (Clock.extend a n) ≤ List.length (Clock.extend b n) := by
+    rw [length_extend, length_extend]; omega
+  rw [le_iff_of_length_le _ _ hl]
+  constructor
+  · intro h i
+    have := h i
+    rwa [get_extend, get_extend] at this
+  · intro h i
+    rw [get_extend, get_extend]
+    exact h i
+
+example : Clock.le (Clock.extend (Clock.ofList [1, 0]) 1) (Clock.extend (Clock.ofList [1]) 1) = true := by decide
+
 /-! ### each task's own clock only grows -/
 
 /-- **`own_clock_monotone`**, one task segment: any program over the kernel API, any fuel, any ending. -/
